@@ -22,6 +22,8 @@ type C01Obs struct {
 	AddrTypedNil bool   `json:"addrTypedNil"`
 	Net          string `json:"net"`
 	Addr         []byte `json:"addr"`
+	Addr2        []byte `json:"addr2,omitempty"`  // "<network> <address>" returned by a second Start
+	AddrRC       []byte `json:"addrRC,omitempty"` // the same from ReattachConfig() (real-subprocess cases)
 	Protocol     string `json:"protocol"`
 	Version      int    `json:"version"`
 	Kills        int    `json:"kills"`
